@@ -72,6 +72,7 @@ func ruleCSVRows(c *core.Ctx, ruleNames, ruleNums string) {
 			if callee == nil || callee.String() != "(*encoding/csv.Writer).Write" || len(args) != 2 {
 				return nil, false
 			}
+			s.SetData("wrote", "1")
 			t, ok := args[1].(*absint.Term)
 			if !ok || t.Op != "slice" {
 				badNames = append(badNames, "the row handed to Write is "+args[1].Key()+", not a literal list of fields")
@@ -129,6 +130,16 @@ func ruleCSVRows(c *core.Ctx, ruleNames, ruleNums string) {
 				}
 			}
 			return nil, false
+		}
+		// one row per element: no iteration over the elements ends without a Write
+		x.Hooks.BackEdge = func(x *absint.Exec, s *absint.State, f *absint.Frame, h *ssa.BasicBlock) {
+			if f.Fn != fn {
+				return
+			}
+			if s.Data["wrote"] != "1" {
+				badNames = append(badNames, "an element is passed over without a row being written for it ("+x.Valuation(s)+"): the export has fewer rows than the day (or the recipe) has entries")
+			}
+			s.SetData("wrote", "")
 		}
 		x.Run(x.NewState(fn, nil, nil))
 		if !account(c, x, ruleNames, fn) {
